@@ -151,7 +151,7 @@ def build_network(desc: dict):
             for i in range(cuts[j], cuts[j + 1]):
                 r, p = desc["reactions"][i]
                 rec_ = {"r": list(r), "p": list(p), "a": 1.0e-10 * (i + 1), "b": 0.0, "c": 0.0, "tmin": -1.0, "tmax": -1.0, "idx": i + 1,
-                        "code": {"naunet": 100, "kida": 3, "krome": None}[fmt_]}
+                        "code": {"naunet": 100, "kida": 3, "krome": None, "umist": "NN"}[fmt_]}
                 # (KROME: the default column layout, i.e. a file WITHOUT a @format line)
                 tf.write((encoders.krome(rec_, fmt="idx,R,R,R,P,P,P,P,Tmin,Tmax,rate") if fmt_ == "krome" else encoders.ENCODERS[fmt_](rec_)) + "\n")
             tf.close()
@@ -633,6 +633,9 @@ def main(ctx: Ctx) -> int:
         {"reactions": [(["H2", "O"], ["OH", "H"]), (["CH3OH", "He+"], ["CH", "OH", "H", "H", "He+"]), (["H", "H", "H"], ["H2", "H"]),
                        (["CH3OH", "H+"], ["CH", "OH", "H", "H", "H+"]), (["OH", "H"], ["O", "H2"])],
          "required": ["He"], "via_files": ["kida", "naunet"], "origin": "random"},
+        # a UMIST file: one or two reactants, up to FOUR products (every product column used)
+        {"reactions": [(["H2", "O"], ["OH", "H"]), (["CH3OH", "H+"], ["CH", "OH", "H2", "H+"]), (["CH3OH", "He+"], ["CH2", "OH", "H", "He+"]), (["OH", "H"], ["O", "H2"])],
+         "required": [], "via_files": ["umist"], "origin": "random"},
         # a KROME file in the default column layout, read after another KROME file with its own layout was aborted at a bad line
         {"reactions": [(["H", "H", "H"], ["H2", "H"]), (["H2", "He+"], ["H", "H+", "He"]), (["H+", "e-"], ["H"]), (["He+", "e-"], ["He"])],
          "required": [], "via_files": ["krome"], "after_failed_krome": True, "origin": "random"},
